@@ -5,6 +5,7 @@ import copy
 import dataclasses
 import json
 import os
+import re
 import random
 import time
 
@@ -116,6 +117,102 @@ def _ok(c):
         return False
 
 
+# ----------------------------------------------------------------------------- can the monitor see anything?
+
+def _corrupt(kind, s, a, rng):
+    """a *wrong* observation made from a right one (None when this observation offers no place for it)"""
+    a = list(a)
+    rs = [k for k, l in enumerate(a) if l.startswith("R ") and " ok " in l and s.ops[int(l.split(" ")[1])][0] == "send"]
+    if kind == "post":          # the machine ends in a state the event does not lead to
+        vals = [eng.rp(eng.POOL[st.val]) for st in s.states]
+        cand = []
+        for k in rs:
+            cur = re.search(r"cur=(\S+)", a[k])
+            others = [v for v in vals if cur and v != cur.group(1) and " " not in v]
+            if others:
+                cand.append((k, cur.group(1), others))
+        if not cand:
+            return None
+        k, cur, others = rng.choice(cand)
+        a[k] = a[k].replace(f"cur={cur}", f"cur={rng.choice(others)}")
+        return a
+    if kind == "result":        # the event returns something no callback returned
+        cand = [k for k in rs if a[k].split(" ")[3] not in ("None",)]
+        cand = cand or rs
+        if not cand:
+            return None
+        k = rng.choice(cand)
+        p = a[k].split(" ")
+        p[3] = "'no-callback-returned-this'" if p[3] != "'no-callback-returned-this'" else "None"
+        a[k] = " ".join(p)
+        return a
+    if kind == "phase":         # a later phase's callback before an earlier phase's, inside one trigger
+        bs = [k for k, l in enumerate(a) if l.startswith("B ")]
+        for x in bs:
+            px = a[x].split(" ")
+            for y in bs:
+                py = a[y].split(" ")
+                if y > x and py[1] == px[1] and RANK.get(py[2], 0) > RANK.get(px[2], 0) and px[2] != "cond" \
+                        and py[2] not in ("cond",):
+                    a[x], a[y] = a[y], a[x]
+                    return a
+        return None
+    if kind == "tid":           # a callback of a later trigger in the middle of an earlier trigger's block
+        bs = [k for k, l in enumerate(a) if l.startswith("B ")]
+        tids = sorted({int(a[k].split(" ")[1]) for k in bs})
+        if len(tids) < 2:
+            return None
+        hi = [k for k in bs if int(a[k].split(" ")[1]) == tids[-1]]
+        lo = [k for k in bs if int(a[k].split(" ")[1]) == tids[0]]
+        if not hi or not lo or lo[0] > hi[0]:
+            return None
+        l = a.pop(hi[0])
+        a.insert(lo[0], l)
+        return a
+    if kind == "faultstate":    # after a failing send the machine sits in a state that is neither source nor target
+        errs = [k for k, l in enumerate(a) if l.startswith("R ") and " err user:" in l]
+        vals = [eng.rp(eng.POOL[st.val]) for st in s.states]
+        if not errs or len(vals) < 3:
+            return None
+        k = rng.choice(errs)
+        cur = re.search(r"cur=(\S+)", a[k])
+        prev = [re.search(r"cur=(\S+)", a[j]).group(1) for j in range(k) if a[j].startswith("R ")][-1:]
+        others = [v for v in vals if cur and v != cur.group(1) and v not in prev and " " not in v]
+        ts = {l.split(" ", 1)[1] for l in a[:k + 1] if l.startswith("T ")}
+        others = [v for v in others if v not in ts]
+        if not others:
+            return None
+        a[k] = a[k].replace(f"cur={cur.group(1)}", f"cur={others[0]}")
+        return a
+    return None
+
+
+SELFTEST_KIND = {"C01": "post", "C14": "result", "C02": "phase", "C03": "tid", "C04": "faultstate", "C13": "post"}
+MONITOR_SELFTEST = {}
+
+
+def monitor_selftest(ctx, tag, monitor, s, a, rt):
+    """feed the Spec monitor a corrupted copy of an observation it accepted: it has to object (counts go into the
+    evidence; a monitor that never objects is vacuous and makes the check fail as a crash, not as a verdict)"""
+    kind = SELFTEST_KIND.get(ctx.prop)
+    st = MONITOR_SELFTEST.setdefault(ctx.prop, dict(kind=kind, applied=0, detected=0))
+    if kind is None or st["applied"] >= 60:
+        return
+    rng = random.Random(f"{ctx.seed}:selftest:{tag}:{s.name}")
+    try:
+        b = _corrupt(kind, s, a, rng)
+    except Exception:       # noqa: BLE001  (an observation the corruptor cannot read: no self-test on it)
+        b = None
+    if b is None or b == list(a):
+        return
+    st["applied"] += 1
+    try:
+        if monitor(s, b, rt):
+            st["detected"] += 1
+    except Exception:       # noqa: BLE001  (a monitor that cannot even read the corrupted observation objects, too)
+        st["detected"] += 1
+
+
 # ----------------------------------------------------------------------------- the check
 
 def engine_check(ctx: Ctx, profile, n_quick, n_thorough, nontrivial, monitor=None, tag=None,
@@ -202,6 +299,8 @@ def engine_check(ctx: Ctx, profile, n_quick, n_thorough, nontrivial, monitor=Non
             if post:
                 fails += post(s, a, rt)
             d = first_diff(a, b)
+            if monitor and not fails and not d and not ctx.replay:
+                monitor_selftest(ctx, tag, monitor, s, a, rt)
             if fails:
                 stats["monitor_failures"] += 1
                 _report(ctx, s, a, b, fails, monitor, post, known)
@@ -229,6 +328,12 @@ def engine_check(ctx: Ctx, profile, n_quick, n_thorough, nontrivial, monitor=Non
         ctx.coverage.setdefault("anchored_line_coverage_sample60", {})[tag] = tr.report()
     except Exception as e:      # coverage is informational
         ctx.coverage.setdefault("anchored_line_coverage_sample60", {})[tag] = f"unavailable: {type(e).__name__}: {e}"
+    if ctx.prop in MONITOR_SELFTEST:
+        st = MONITOR_SELFTEST[ctx.prop]
+        ctx.coverage["spec_monitor_selftest"] = dict(st)
+        if st["applied"] >= 15 and st["detected"] == 0:
+            raise RuntimeError(f"the Spec monitor of {ctx.prop} accepted {st['applied']} corrupted observations "
+                               f"(corruption `{st['kind']}`): it is vacuous")
     ctx.coverage.update(
         evaluations=stats["evaluations"], distinct_nontrivial=len(nontriv),
         traces_validated_against_impl=stats["evaluations"] - stats["disagreements"],
